@@ -69,6 +69,11 @@ def cases(tier: str, seed: int) -> List[Dict[str, Any]]:
                         for entry in ("raw", "SGD", "AdamW"):
                             out.append({"st": st, "form": "groups", "lrkind": lrkind, "wd": wd,
                                         "mix": mix, "indep": indep, "entry": entry, "seed": seed})
+        for pform in ("generator", "tuple", "iter"):
+            for mix in (0, 1):
+                for entry in ("raw", "SGD", "AdamW"):
+                    out.append({"st": st, "form": "groups", "pform": pform, "lrkind": "float",
+                                "wd": 0.01, "mix": mix, "indep": 1, "entry": entry, "seed": seed})
         if anyown and sum(g[1] for g in st) >= 2:
             for entry in ("raw", "SGD", "AdamW"):
                 out.append({"st": st, "form": "groups", "lrkind": "shared_own", "wd": 0.01,
@@ -125,6 +130,9 @@ def run_case(case: Dict[str, Any]) -> Dict[str, Any]:
     gen = torch.Generator().manual_seed(derive_seed(case["seed"], "C11") % (2**31))
     viol: List[Dict[str, str]] = []
     ident = f"{entry}|form={form}|lr={lrkind}|indep={int(indep)}|mix={mix}"
+    one_shot = case.get("pform", "list") in ("generator", "iter")
+    if one_shot:
+        ident += "|group_params=" + case["pform"]
 
     GLOBAL_LR, OWN_LR, OWN_WD = 0.5, 0.125, 0.25
     extras = {
@@ -158,7 +166,15 @@ def run_case(case: Dict[str, Any]) -> Dict[str, Any]:
             src.append({"tagged": tagged, "lr": OWN_LR if ownlr else GLOBAL_LR,
                         "wd": OWN_WD if ownwd else wd, "extras": dict(extras) if ext else {}})
             idx += 1
-        gd: Dict[str, Any] = {"params": ps}
+        pform = case.get("pform", "list")
+        cont: Any = ps
+        if pform == "generator":
+            cont = (q for q in ps)
+        elif pform == "tuple":
+            cont = tuple(ps)
+        elif pform == "iter":
+            cont = iter(ps)
+        gd: Dict[str, Any] = {"params": cont}
         if ownlr:
             gd["lr"] = shared_own if lrkind == "shared_own" else mklr(OWN_LR)
         if ownwd:
@@ -191,7 +207,7 @@ def run_case(case: Dict[str, Any]) -> Dict[str, Any]:
             o = optim.AdamW(arg, **kw)
         return o, list(o.param_groups)
 
-    if has_untagged and form == "groups":
+    if has_untagged and form == "groups" and not one_shot:
         try:
             call(False)
             viol.append({"key": ident + "|untagged_accepted", "msg": "no ValueError"})
